@@ -353,3 +353,33 @@ def fith_line(X, kern, params, prefix, draws):
     for dr in draws:
         parts += [len(dr)] + dr
     return " ".join(str(p) for p in parts)
+
+
+def stopped_early(model, X, params, last_gain):
+    """the loop of Kauri.fit may only end when the last answer of find_best_split had no positive gain, when the USER's leaf limit
+    (max_leaves, or the number of samples) is reached, or when no leaf is left that may be explored (>= min_samples_split samples
+    and above max_depth).  Returns a message when none of these holds for the fitted model."""
+    if last_gain is None or not (last_gain > 0):
+        return None
+    n = len(X)
+    t = model.tree_
+    leaves = np.asarray(model.leaves_)
+    ids = sorted(set(leaves.tolist()))
+    maxl = params.get("max_leaves") or n
+    if len(ids) >= maxl:
+        return None
+    maxd = params.get("max_depth")
+    explorable = []
+    for l in ids:
+        members = np.where(leaves == l)[0]
+        i = int(members[0])
+        node, depth = 0, 0
+        while t.children_left[node] != -1:
+            node = t.children_left[node] if X[i, t.features[node]] <= t.thresholds[node] else t.children_right[node]
+            depth += 1
+        if len(members) >= params.get("min_samples_split", 2) and (maxd is None or depth < maxd):
+            explorable.append((int(l), len(members), depth))
+    if explorable:
+        return (f"fitting stopped after a split of positive gain {float(last_gain):.6g} with {len(ids)} leaves (limit {maxl}) although the leaves "
+                f"{explorable} (id, samples, depth) may still be explored")
+    return None
